@@ -60,6 +60,9 @@ EvWin == /\ Ev("win")
                /\ Expect(Digits(E.n1) = w1 /\ Digits(E.n2) = w2 /\ His(E.n1) \subseteq {0} /\ His(E.n2) \subseteq {0}, <<l, "win-numeric">>)
                /\ Expect(Digits(E.i1) = w1 /\ Digits(E.i2) = w2 /\ His(E.i1) \subseteq {A.k} /\ His(E.i2) \subseteq {A.k + 1}, <<l, "win-index">>)
                /\ Expect(E.lens = <<Len(w1), Len(w2), Len(w1), Len(w2), Len(w1), Len(w2)>>, <<l, "win-len">>)
+               (* iterator laws: the exact remaining length after every step, fused at the end *)
+               /\ Expect(E.iter1 = [i \in 1..(Len(w1) + 1) |-> Len(w1) + 1 - i] /\ E.iter2 = [i \in 1..(Len(w2) + 1) |-> Len(w2) + 1 - i]
+                         /\ E.fused = TRUE /\ E.hints = TRUE, <<l, "win-iterator-laws">>)
                (* candidate <=> recorded index window sets intersect, on recorded values *)
          /\ Stateless
 
@@ -121,7 +124,27 @@ EvCap == /\ Ev("cap")                \* for (n, l1): all l2 in 0..64
          /\ Expect(Len(E.rs) = FULL + 1 /\ CapApplies(E.border - 1) /\ ~CapApplies(E.border), <<l, "cap-border">>)
          /\ Stateless
 
-Next == EvEd \/ EvSub \/ EvSs \/ EvCmp \/ EvWin \/ EvTInit \/ EvTObs \/ EvPInit \/ EvPObs
+(* the string entry point on arbitrary texts: both texts are parsed as long normalising hashes
+   (default parser); a parse failure of the left text is reported before one of the right text *)
+Drift(cond, info) == IF cond THEN TRUE ELSE PrintT("DRIFT " \o ToJson(info))
+LongNorm == [norm |-> TRUE, long |-> TRUE, dual |-> FALSE]
+EvCmpStr == /\ Ev("cmpstr")
+            /\ LET qa == T!Parse(LongNorm, FALSE, E.ta)
+                   qb == T!Parse(LongNorm, FALSE, E.tb)
+               IN /\ Expect(IF qa.ok /\ qb.ok THEN E.r.ok = "ok" /\ E.r.score = Compare(qa.h, qb.h)
+                            ELSE E.r.ok = "err", <<l, "cmpstr", qa.ok, qb.ok>>)
+                  /\ Drift((qa.ok /\ qb.ok) \/ (E.r.side = (IF ~qa.ok THEN "Left" ELSE "Right")
+                                                /\ E.r.origin = (IF ~qa.ok THEN qa.origin ELSE qb.origin)), <<l, "cmpstr-error-side">>)
+            /\ Stateless
+(* position array element: "contains a run of at least len one bits" (x as four 16-bit limbs, low first) *)
+XBit(x, i) == (x[(i \div 16) + 1] \div 2^(i % 16)) % 2
+HasRun(x, len) == IF len = 0 THEN TRUE ELSE IF len > 64 THEN FALSE
+                  ELSE \E i \in 0..(64 - len) : \A d \in 0..(len - 1) : XBit(x, i + d) = 1
+EvHasSeq == /\ Ev("hasseq")
+            /\ Expect(Len(E.rs) = 67 /\ \A n \in 0..66 : E.rs[n + 1] = HasRun(E.x, n), <<l, "hasseq">>)
+            /\ Expect(E.c4 = HasRun(E.x, 4), <<l, "hasseq-const">>)
+            /\ Stateless
+Next == EvCmpStr \/ EvHasSeq \/ EvEd \/ EvSub \/ EvSs \/ EvCmp \/ EvWin \/ EvTInit \/ EvTObs \/ EvPInit \/ EvPObs
         \/ EvBsValid \/ EvBsLog \/ EvBsRel \/ EvRawScore \/ EvCap
 Spec == Init /\ [][Next]_vars
 Progress == Mark(l)
